@@ -17,6 +17,9 @@ for sid in sorted(mx):
     m = mx[sid]
     if not m.get('applies', True):
         rep = 'patch no longer applies'
+    elif m.get('obsolete'):
+        rep = ('no longer breaks the property since the F23 repair (rebased: demo passes); checks silent, as expected'
+               if m.get('silent_as_expected') else 'obsolete since a repair, but still reported: ' + str(m['fired']))
     elif not m['fired']:
         rep = '**missed**'
     else:
@@ -31,9 +34,10 @@ for sid in sorted(mx):
         if extra and m['fired']:
             rep += f' — {extra.group(1).strip()}'
     rows.append(f"| {sid} | {', '.join(files)} ({', '.join(funcs) or '-'}) | {needs} | {rep} |")
-n = len(mx); c = sum(1 for v in mx.values() if v.get('fired')); o = sum(1 for v in mx.values() if v.get('caught_by_own_check'))
+live = {k: v for k, v in mx.items() if not v.get('obsolete')}
+n = len(live); c = sum(1 for v in live.values() if v.get('fired')); o = sum(1 for v in live.values() if v.get('caught_by_own_check'))
 rows.append('')
-rows.append(f'{c} of {n} kept changes are reported by at least one check, {o} by the check of the property they were '
+rows.append(f'{c} of {n} kept changes that still break their property on the current tree are reported by at least one check, {o} by the check of the property they were '
             f'written against (`tools/seed_matrix.py`, run against scratch worktrees of the current HEAD).')
 txt = open(f'{V}/DESIGN.md').read()
 a, b = '<!-- SEED-TABLE-BEGIN -->', '<!-- SEED-TABLE-END -->'
